@@ -39,6 +39,9 @@ func includeRejectedBySentence(name string) bool {
 }
 
 func runC08(c *fw.Ctx) {
+	if ioFaultHook != nil {
+		ioFaultHook(c, "C08")
+	}
 	dir := drv.NewDir(fw.Scratch("c08"))
 	defer dir.Close()
 	defer os.RemoveAll(filepath.Dir(dir.Path))
